@@ -22,9 +22,9 @@ macro_rules! lut_suite {
                   desc: "T1+T2 for every f32 bit pattern: in-bounds table read (Kani's get_unchecked precondition), no panic; x<=0 | -inf -> 0; x>=1 | +inf -> MAX" }
                 fn total(g) {
                     let x = g.f32();
-                    g.cover(x != x);
-                    g.cover(x > 0.001 && x < 0.999);
-                    g.cover(x == f32::INFINITY);
+                    cov!(g, x != x);
+                    cov!(g, x > 0.001 && x < 0.999);
+                    cov!(g, x == f32::INFINITY);
                     let y: $code = <$enc as FromLinear<f32, $code>>::from_linear(x);
                     if x <= 0.0 { ob!("T2.nonpositive_maps_to_zero", y == 0); }
                     if x >= 1.0 { ob!("T2.at_or_above_one_maps_to_max", y == $code::MAX); }
@@ -37,7 +37,7 @@ macro_rules! lut_suite {
                 fn monotone(g) {
                     let a = g.f32(); let b = g.f32();
                     g.assume(a <= b);
-                    g.cover(a < b && a > 0.0 && b < 1.0);
+                    cov!(g, a < b && a > 0.0 && b < 1.0);
                     let ya: $code = <$enc as FromLinear<f32, $code>>::from_linear(a);
                     let yb: $code = <$enc as FromLinear<f32, $code>>::from_linear(b);
                     ob!("T3.monotone_non_decreasing", ya <= yb);
@@ -48,7 +48,7 @@ macro_rules! lut_suite {
                   desc: "T4 for every code c: from_linear(into_linear(c)) == c through the f32 and the f64 decoder; decoded value in [0,1], 0 -> 0.0, MAX -> 1.0" }
                 fn decode_encode(g) {
                     let c = g.$code();
-                    g.cover(c > 0 && c < $code::MAX);
+                    cov!(g, c > 0 && c < $code::MAX);
                     let d32: f32 = <$enc as IntoLinear<f32, $code>>::into_linear(c);
                     let d64: f64 = <$enc as IntoLinear<f64, $code>>::into_linear(c);
                     ob!("T4.decoded_in_unit_interval", d32 >= 0.0 && d32 <= 1.0 && d64 >= 0.0 && d64 <= 1.0);
@@ -64,7 +64,7 @@ macro_rules! lut_suite {
                   desc: "T5 for every f64 bit pattern: equals the f32 entry point on (x as f32); hence total, safe, saturating and monotone as well" }
                 fn f64_entry(g) {
                     let x = g.f64();
-                    g.cover(x > 0.001 && x < 0.999);
+                    cov!(g, x > 0.001 && x < 0.999);
                     let y: $code = <$enc as FromLinear<f64, $code>>::from_linear(x);
                     let z: $code = <$enc as FromLinear<f32, $code>>::from_linear(x as f32);
                     ob!("T5.f64_entry_equals_f32_entry", y == z);
